@@ -1,6 +1,6 @@
 CONSTANTS
-  Mode = "all"
-  MaxLen = 3
+  Mode = "positions"
+  MaxLen = 0
 INIT Init
 NEXT Next
 INVARIANT Laws
